@@ -119,9 +119,15 @@ bool Module::initialize(const Json &js_parent)
         return false;
     }
 
-    for (const auto &item : children_) {
+    for (size_t i = 0; i < children_.size(); ++i) {
+        const auto &item = children_[i];
         if (!item.module_ptr->initialize(js_this) && item.required) {
             LogErr("required module `%s' initialize() fail", item.module_ptr->name().c_str());
+            //! 回滚：前面已初始化成功的子模块与自己都要 cleanup。
+            //! 否则 state_ 仍为 kNone，之后的 cleanup() 会直接返回，成功的 onInit() 就永远等不到 onCleanup()
+            for (size_t j = i; j-- > 0; )
+                children_[j].module_ptr->cleanup();
+            onCleanup();
             return false;
         }
     }
@@ -142,9 +148,15 @@ bool Module::start()
         return false;
     }
 
-    for (const auto &item : children_) {
+    for (size_t i = 0; i < children_.size(); ++i) {
+        const auto &item = children_[i];
         if (!item.module_ptr->start() && item.required) {
             LogErr("required module `%s' start() fail", item.module_ptr->name().c_str());
+            //! 回滚：前面已启动成功的子模块与自己都要 stop。
+            //! 否则 state_ 仍为 kInited，之后的 stop()/cleanup() 不会再调 onStop()，成功的 onStart() 就失去了配对
+            for (size_t j = i; j-- > 0; )
+                children_[j].module_ptr->stop();
+            onStop();
             return false;
         }
     }
